@@ -272,3 +272,13 @@ Theorem C05_deserialize_priority_tie : forall (V : Type) (conv : pytype -> str -
   deserialize_gen conv s (filter (fun x => (sort_key x =? sort_key t)%Z) l) = Some (t, v).
 Proof. exact @deserialize_priority_tie. Qed.
 Print Assumptions C05_deserialize_priority_tie.
+
+(* candidates drawn from the documented types (Spec.XsdPrims.documented_priority, written
+   out independently of the regenerated table): sorting by the table and taking the
+   first converter that accepts is exactly the documented choice *)
+Theorem C05_deserialize_documented : forall (V : Type) (conv : pytype -> str -> option V) s (names : list str),
+  (forall n, In n names -> In n documented_priority) ->
+  option_map snd (deserialize_gen conv s (sort_types (map TName names)))
+  = choose_by_priority documented_priority names (fun n => conv (TName n) s).
+Proof. exact @deserialize_documented. Qed.
+Print Assumptions C05_deserialize_documented.
